@@ -60,7 +60,10 @@ impl AppendTextComment {
                 .map(|content| {
                     if content.is_empty() {
                         "".to_owned()
-                    } else if content.contains('\n') {
+                    } else if content.contains('\n')
+                        || content.contains('\r')
+                        || starts_like_long_bracket(&content)
+                    {
                         let mut equal_count = 0;
 
                         let close_comment = loop {
@@ -84,6 +87,14 @@ impl AppendTextComment {
             })
             .clone()
     }
+}
+
+/// A single line comment starting with `[[` or `[=[` would begin a multiline comment
+fn starts_like_long_bracket(content: &str) -> bool {
+    content
+        .strip_prefix('[')
+        .map(|rest| rest.trim_start_matches('=').starts_with('['))
+        .unwrap_or(false)
 }
 
 impl Rule for AppendTextComment {
